@@ -31,6 +31,7 @@ func (Prop) Plan(t vp.Tier) []vp.Stage {
 		{Name: "random", NBatches: 16, TimeoutS: 1200},
 		{Name: "timepop", NBatches: 4, TimeoutS: 300},
 		{Name: "lua", NBatches: 16, TimeoutS: 1500},
+		{Name: "exit-handlers", NBatches: 4, TimeoutS: 600},
 	}
 	if t == vp.Thorough {
 		st = append(st, vp.Stage{Name: "enum-cpu-deep", NBatches: 64, TimeoutS: 3000})
@@ -118,6 +119,8 @@ func (Prop) RunBatch(c *vp.Child) {
 		runTimePop(c)
 	case "lua":
 		runLua(c)
+	case "exit-handlers":
+		runExitHandlers(c)
 	}
 }
 
